@@ -257,7 +257,16 @@ def run_libgomp(case):
                         fails.append({"key": "libgomp-thread-dependent;%s%s" % (name, ";team<max" if case.get("limit") else ""),
                                       "msg": "output of %s at OMP_NUM_THREADS=%d%s (repetition %d) differs from the single-thread run: rel %.3e" % (
                                           name, nt, " with OMP_THREAD_LIMIT=%d" % case["limit"] if case.get("limit") else "", k, rel)})
-    return {"fail": fails[:10], "evals": evals, "edges": evals, "outcome": ["libgomp", float("%.3e" % worst)], "info": {"worst_rel": worst}}
+    # The real runtime samples schedules: a racy routine shows up in different bodies from run to run.  One failure per
+    # case with a key that names only the configuration, so that "reproduced in a fresh process" means "thread dependence
+    # observed again in this configuration", and the bodies go into the message.
+    dep = [f for f in fails if f["key"].startswith("libgomp-thread-dependent")]
+    other = [f for f in fails if not f["key"].startswith("libgomp-thread-dependent")]
+    if dep:
+        names = sorted(set(f["key"].split(";", 1)[1] for f in dep))
+        other.append({"key": "libgomp-thread-dependent;threads=%s%s" % (case["threads"][-1], ";limit=%d" % case["limit"] if case.get("limit") else ""),
+                      "msg": "%d output(s) differ from the single-thread run, e.g. %s | bodies: %s" % (len(dep), dep[0]["msg"], "; ".join(names[:6]))})
+    return {"fail": other, "evals": evals, "edges": evals, "outcome": ["libgomp", float("%.3e" % worst)], "info": {"worst_rel": worst}}
 
 
 def run_tsan(case):
